@@ -152,11 +152,79 @@ def rule_r1(chk):
     except (Undecided, ValueError) as e:
         chk.undecided("C14-R1", "series._ell_one._lonf_for_variant", str(e), lm.loc(g))
     h = lm.func("lonf")
-    src = unparse(h).replace(" ", "")
-    ok = ("trend_data,gap_data=_lonf_for_variant(solve,data,D)" in src and "trend_data_variants.append(trend_data)" in src
-          and "gap_data_variants.append(gap_data)" in src and "trend_series=Series(start=start_period,values=trend_data_variants)" in src
-          and "gap_series=Series(start=start_period,values=gap_data_variants)" in src and "return(trend_series,gap_series)" in src)
-    chk.ob("C14-R1", "series._ell_one.lonf[order kept]", ok, "(trend, gap) order and the common start are kept from the variant solver to the result", lm.loc(h))
+    chk.saw(lm, "lonf")
+    facts = _lonf_facts(h)
+    if facts is None:
+        chk.undecided("C14-R1", "series._ell_one.lonf[order kept]", "shape of the variant loop / constructors not recognised", lm.loc(h))
+    else:
+        ok = facts["first_list_gets"] == facts["unpack"][0] and facts["second_list_gets"] == facts["unpack"][1] and facts["same_start"] \
+            and facts["solver_returns"] == ("trend_data", "gap_data") and facts["unpack"] == ("trend_data", "gap_data")
+        chk.ob("C14-R1", "series._ell_one.lonf[order kept]", ok,
+               f"variant solver returns {facts['solver_returns']}, unpacked as {facts['unpack']}, accumulated into the lists behind the "
+               f"(first, second) returned series: ({facts['first_list_gets']}, {facts['second_list_gets']}); common start: {facts['same_start']}", lm.loc(h))
+        # every variant is kept: the list route of the Series constructor keeps only num_variants items
+        sm = chk.repo.mod("irispie.series.main")
+        fsv = sm.func("_from_start_and_values")
+        truncates = any(isinstance(n, ast.Call) and dotted(n.func) == "zip" and any("range(self.num_variants)" in unparse(a_).replace(" ", "") for a_ in n.args)
+                        for n in ast.walk(fsv))
+        for which, call, lst in facts["ctors"]:
+            kw = {k.arg: k.value for k in call.keywords}
+            nv = kw.get("num_variants")
+            nv_src = assign_value_(h, nv.id) if isinstance(nv, ast.Name) else nv
+            lists = {c[2] for c in facts["ctors"]}
+            good = nv_src is not None and (unparse(nv_src).replace(" ", "") in {f"len({l})" for l in lists} | {"input_series.num_variants"})
+            ok = True if not truncates else (good if nv is not None else False)
+            chk.ob("C14-R1", f"series._ell_one.lonf[all variants kept: {which}]", ok,
+                   ("Series(values=<list of variants>) keeps only num_variants items (default 1); " if truncates else "") +
+                   (f"num_variants={unparse(nv_src) if nv_src is not None else None}" if nv is not None else "no num_variants passed: every variant but the first is dropped"),
+                   lm.loc(call))
+
+
+def assign_value_(f, name):
+    vals = [n.value for n in walk_no_nested(f) if isinstance(n, ast.Assign) and len(n.targets) == 1 and isinstance(n.targets[0], ast.Name) and n.targets[0].id == name]
+    return vals[-1] if vals else None
+
+
+def _lonf_facts(h):
+    """structure of lonf: (a, b) = _lonf_for_variant(..); LA.append(a); LB.append(b); S1 = Series(.., values=LA); S2 = ...; return S1, S2"""
+    unpack = None
+    appends = {}
+    for n in ast.walk(h):
+        if isinstance(n, ast.Assign) and isinstance(n.targets[0], ast.Tuple) and isinstance(n.value, ast.Call) and dotted(n.value.func) == "_lonf_for_variant":
+            unpack = tuple(e.id for e in n.targets[0].elts if isinstance(e, ast.Name))
+        if isinstance(n, ast.Call) and isinstance(n.func, ast.Attribute) and n.func.attr == "append" and isinstance(n.func.value, ast.Name) and n.args \
+                and isinstance(n.args[0], ast.Name):
+            appends[n.func.value.id] = n.args[0].id
+    rets = [n for n in walk_no_nested(h) if isinstance(n, ast.Return)]
+    if unpack is None or len(unpack) != 2 or len(rets) != 1 or not isinstance(rets[0].value, ast.Tuple) or len(rets[0].value.elts) != 2:
+        return None
+    ctors = []
+    for which, e in zip(("trend", "gap"), rets[0].value.elts):
+        v = assign_value_(h, e.id) if isinstance(e, ast.Name) else e
+        if not isinstance(v, ast.Call):
+            return None
+        kw = {k.arg: k.value for k in v.keywords}
+        if "values" not in kw or not isinstance(kw["values"], ast.Name):
+            return None
+        ctors.append((which, v, kw["values"].id))
+    starts = {unparse({k.arg: k.value for k in c.keywords}.get("start") or {k.arg: k.value for k in c.keywords}.get("start_date") or ast.Constant(None)) for _, c, _ in ctors}
+    return {"unpack": unpack, "first_list_gets": appends.get(ctors[0][2]), "second_list_gets": appends.get(ctors[1][2]), "same_start": len(starts) == 1,
+            "ctors": ctors, "solver_returns": _solver_returns(h)}
+
+
+_SOLVER_RETURNS = {}
+
+
+def _solver_returns(h):
+    mod = h
+    while getattr(mod, "_parent", None) is not None:
+        mod = mod._parent
+    for n in ast.walk(mod):
+        if isinstance(n, ast.FunctionDef) and n.name == "_lonf_for_variant":
+            rets = [r for r in walk_no_nested(n) if isinstance(r, ast.Return)]
+            if len(rets) == 1 and isinstance(rets[0].value, ast.Tuple):
+                return tuple(unparse(e) for e in rets[0].value.elts)
+    return None
 
 
 def rule_r2(chk):
